@@ -51,19 +51,24 @@ static void check_dpart(const char *sub, const unsigned char *d, size_t n) {
     int hasat = 0; for (size_t i = 0; i < n; i++) if (d[i] == '@') hasat = 1;
     if (hasat || n == 0) return;
     MC_ADD(exp == R_ACC ? C_ACC : exp == R_REJ ? C_REJ : C_ANY, 1);
-    buf[0] = 'x'; buf[1] = '@'; memcpy(buf + 2, d, n); buf[n + 2] = 0;
+    /* the local part must not matter to the literal's verdict, family or flags: besides "x", two quoted local parts (valid in every mode)
+     * that contain what the literal parser looks for - a colon, a dot between digits, brackets, an '@' */
+    static const char *const LPS[3] = { "x", "\"a:b\"", "\"1.2]@[:\"" };
+    for (int lpi = 0; lpi < (bracket ? 3 : 1); lpi++) {
+    size_t lpl = strlen(LPS[lpi]); if (n + lpl + 2 > sizeof buf) break;
+    memcpy(buf, LPS[lpi], lpl); buf[lpl] = '@'; memcpy(buf + lpl + 1, d, n); buf[lpl + 1 + n] = 0;
     for (int m = 0; m < 4; m++) {
         if (m == 3 && !bracket) continue;     /* host names in mode 6531: C04/C10 */
         for (int tld = 0; tld < 2; tld++) {
             if (tld && !bracket) continue;    /* policy on host names: C07/C08 */
-            eav_result_t *r = EMAIL[m](buf, n + 2, tld);
+            eav_result_t *r = EMAIL[m](buf, n + lpl + 1, tld);
             MC_ADD(C_EVAL, 1);
             int acc = (r->rc == 0);
             if (acc) MC_ADD(C_IMPLACC, 1);
-            char cfg[48]; snprintf(cfg, sizeof cfg, "mode=%s tld=%d", MN[m], tld);
+            char cfg[48]; snprintf(cfg, sizeof cfg, "mode=%s tld=%d lp=%d", MN[m], tld, lpi);
             if (exp != R_ANY && acc != (exp == R_ACC)) {
                 char w[96]; snprintf(w, sizeof w, "%s", exp == R_ACC ? "rejects-valid-literal" : why_acc(d, n));
-                mc_violation(sub, w, "", cfg, d, n, "is_%s_email(x@D,tld=%d): reference %s, library rc=%d", MN[m], tld, exp == R_ACC ? "ACCEPT" : "REJECT", r->rc);
+                mc_violation(sub, w, "", cfg, d, n, "is_%s_email(%s@D,tld=%d): reference %s, library rc=%d", MN[m], LPS[lpi], tld, exp == R_ACC ? "ACCEPT" : "REJECT", r->rc);
             }
             int nf = r->is_ipv4 + r->is_ipv6 + r->is_domain;
             if (nf > 1) mc_violation(sub, "more-than-one-flag", "", cfg, d, n, "flags v4=%d v6=%d dom=%d", r->is_ipv4, r->is_ipv6, r->is_domain);
@@ -78,6 +83,7 @@ static void check_dpart(const char *sub, const unsigned char *d, size_t n) {
                 mc_violation(sub, "flag-on-rejected-literal", "", cfg, d, n, "rejected (rc=%d) but a flag is set v4=%d v6=%d dom=%d", r->rc, r->is_ipv4, r->is_ipv6, r->is_domain);
             eav_result_free(r);
         }
+    }
     }
     /* the public part validators on a stand-alone copy of the bracket content */
     if (bracket && n >= 2 && d[n - 1] == ']' && !memchr(d + 1, ']', n - 2) && !memchr(d + 1, '[', n - 2)) {
@@ -94,6 +100,21 @@ static void check_dpart(const char *sub, const unsigned char *d, size_t n) {
         }
         if (ra && !(p4 || p6)) mc_violation(sub, "is_ipaddr:accepts-invalid", "", "ctx=is_ipaddr", d, n, "is_ipaddr returned %d for an invalid address", ra);
         if (!ra && (s4 || s6)) mc_violation(sub, "is_ipaddr:rejects-valid", "", "ctx=is_ipaddr", d, n, "is_ipaddr rejected a valid address");
+        /* the validators are delimited by `end', not by NUL: whatever follows the end pointer (more digits, hex digits, dots,
+         * colons, the closing bracket of a surrounding address) must not change any of the three decisions */
+        static const char *const AFTER[] = { "]", "1", "9", "a", "F", ".1", ":1", "::", ":", ".", "1.2.3.4", "abcd:1", "g", " " };
+        for (unsigned t = 0; t < sizeof AFTER / sizeof AFTER[0]; t++) {
+            size_t tl = strlen(AFTER[t]); if (cn + tl + 1 > sizeof c) break;
+            memcpy(c + cn, AFTER[t], tl + 1);
+            int t4 = is_ipv4(c, c + cn), t6 = is_ipv6(c, c + cn), ta = is_ipaddr(c, c + cn);
+            MC_ADD(C_EVAL, 3); MC_ADD(C_PART, 3);
+            if (!t4 != !r4 || !t6 != !r6 || !ta != !ra) {
+                char cfg[64]; snprintf(cfg, sizeof cfg, "ctx=after-end tail=%u", t);
+                mc_violation(sub, !t4 != !r4 ? "is_ipv4:reads-past-end" : !t6 != !r6 ? "is_ipv6:reads-past-end" : "is_ipaddr:reads-past-end", "", cfg, d, n,
+                             "bytes \"%s\" placed after the end pointer change the decision: ipv4 %d->%d ipv6 %d->%d ipaddr %d->%d", AFTER[t], r4, t4, r6, t6, ra, ta);
+            }
+        }
+        c[cn] = 0;
     }
 }
 
@@ -150,7 +171,10 @@ static void v4_shard(long shard, void *arg) {
 /* ---------- structured IPv6 ---------- */
 static const char *const TAGS[] = { "IPv6:", "ipv6:", "", "IPv4:", "foo:", "IPv6", ":", "IPv6::" };
 static const char *const TAILS[] = { "", "1.2.3.4", "0.2.3.4", "1.2.3.256", "1.2.3", "1.2.3.4." };
-static const char *const WIDTH[] = { "", "1", "12", "123", "1234", "12345" };
+/* group spellings: widths 0..5 from non-zero digits, then zero-led / all-zero / upper-case / maximal / over-wide / very long / non-hex ones */
+static const char *const WIDTH[] = { "", "1", "12", "123", "1234", "12345", "0", "00", "000", "0000", "00000", "00001", "0ffff", "000001", "000000000",
+    "fffff", "FFFF", "ffff", "10000", "AbCd", "0000000000000000000000000000000000000001", "g", "12g", "1g34", "-1", "+1", "0x1" };
+#define NWIDTH ((int)(sizeof WIDTH / sizeof WIDTH[0]))
 static void v6_build(char *out, int before, int after, int dc, int devidx, int devw, const char *tail, const char *tag, int stray) {
     char *p = out; p += sprintf(p, "%s", tag);
     if (stray == 1) *p++ = ':';
@@ -170,7 +194,7 @@ static void v6_shard(long shard, void *arg) {
     int ng = before + after;
     for (int ti = 0; ti < 6; ti++) for (int tg = 0; tg < 8; tg++) for (int stray = 0; stray < 3; stray++) {
         v6_build(c, before, after, dc, -1, 0, TAILS[ti], TAGS[tg], stray); brkt("v6", c); MC_ADD(C_V6, 1);
-        for (int di = 0; di < ng; di++) for (int w = 0; w < 6; w++) {
+        for (int di = 0; di < ng; di++) for (int w = 0; w < NWIDTH; w++) {
             if (w == 2) continue;     /* width 2 is the default */
             v6_build(c, before, after, dc, di, w, TAILS[ti], TAGS[tg], stray); brkt("v6", c); MC_ADD(C_V6, 1);
         }
@@ -222,7 +246,7 @@ int main(int argc, char **argv) {
     C_ACC = mc_counter("ref_accept"); C_REJ = mc_counter("ref_reject"); C_ANY = mc_counter("ref_any"); C_IMPLACC = mc_counter("impl_accept");
     if (mc_replay) return do_replay();
     mc_parallel("v4: 18^4 octet spellings, every value 0..300 in every position, 3/5 octets, stray dots", NOCT + 1, v4_shard, NULL);
-    mc_parallel("v6: groups before/after '::' 0..8, widths 0..5 at every index, 6 tails, 8 tags, stray colons", 9 * 9 * 2, v6_shard, NULL);
+    mc_parallel("v6: groups before/after '::' 0..8, 27 group spellings (widths 0..5, zero-led, over-wide, non-hex) at every index, 6 tails, 8 tags, stray colons", 9 * 9 * 2, v6_shard, NULL);
     mc_parallel("byte: every byte before/after each bracket, at every content position; 1-2 tokens after ']'", 5, byte_shard, NULL);
     mc_parallel("maxlit: maximal-length valid literals + junk inside / after the brackets, every proper prefix", corpus_shards(CP_MAXLIT), l5_shard, NULL);
     int nraw = mc_thorough ? 8 : 6, nin = mc_thorough ? 9 : 7;
